@@ -40,6 +40,10 @@ use std::sync::Mutex;
 mod common;
 #[path = "c07/mutate.rs"]
 mod mutate;
+#[path = "c08/project.rs"]
+mod project;
+#[path = "c08/project_worker.rs"]
+mod project_worker;
 use common::*;
 
 const RULE: &str = "a case is non-trivial if it is not a verbatim valid document: a mutated / random / hostile text, a document that reaches a later stage (check, printers), a rendered diagnostic, a config text or a loader call sequence (distinct by text)";
@@ -63,7 +67,12 @@ fn install_hook() {
 /// stable class of a panic: file (repo-relative, without line) + class of the message
 fn site_class(msg: &str) -> String {
     let at = LAST_PANIC_AT.lock().map(|g| g.clone()).unwrap_or_default();
-    let file = at.rsplit_once(':').map(|x| x.0).unwrap_or(&at);
+    site_class_of(&at, msg)
+}
+
+/// the same class from a `file:line` reported by a child process
+fn site_class_of(at: &str, msg: &str) -> String {
+    let file = at.rsplit_once(':').map(|x| x.0).unwrap_or(at);
     let file = file.strip_prefix("/repo/").unwrap_or(file);
     let file = if let Some(i) = file.find("/registry/src/") { file[i + 14..].split_once('/').map(|x| x.1).unwrap_or(file) } else { file };
     let cls = panic_class(msg);
@@ -404,6 +413,27 @@ mod stress_worker {
     }
 
     fn run_case(c: &Value) -> Value {
+        if c["stream"].as_str() == Some("project") {
+            // self-test of the watchdog (only reachable through a hand-written replay file)
+            match c["selftest"].as_str() {
+                Some("spin") => {
+                    stage("selftest-spin");
+                    let mut x = 0u64;
+                    loop {
+                        x = std::hint::black_box(x.wrapping_add(1));
+                    }
+                }
+                Some("abort") => {
+                    extern "C" fn boom() {
+                        panic!("selftest panic inside extern C");
+                    }
+                    stage("selftest-abort");
+                    boom();
+                }
+                _ => {}
+            }
+            return super::project_worker::run_project(c, &stage);
+        }
         let sdl = c["schema"].as_str().unwrap_or("").to_string();
         let ops: Vec<String> = c["operations"].as_array().map(|a| a.iter().map(|x| x.as_str().unwrap_or("").to_string()).collect()).unwrap_or_default();
         let nb_text = NITROGQL_BUILTINS_SDL.to_string();
@@ -479,7 +509,16 @@ mod stress_worker {
     }
 
     pub fn main() {
-        std::panic::set_hook(Box::new(|_| {}));
+        // the hook records the site and tells the parent: a panic inside an `extern "C"` function (loader ABI) aborts
+        // the process right after the hook, so the message must be out before
+        std::panic::set_hook(Box::new(|info| {
+            let loc = info.location().map(|l| format!("{}:{}", l.file(), l.line())).unwrap_or_default();
+            if let Ok(mut g) = super::LAST_PANIC_AT.lock() {
+                *g = loc.clone();
+            }
+            let msg = info.payload().downcast_ref::<&str>().map(|s| s.to_string()).or_else(|| info.payload().downcast_ref::<String>().cloned()).unwrap_or_default();
+            say(&format!("p {}", json!({"at": loc, "msg": msg})));
+        }));
         let stdin = std::io::stdin();
         for line in stdin.lock().lines() {
             let Ok(line) = line else { break };
@@ -492,11 +531,14 @@ mod stress_worker {
     }
 }
 
-/// watchdog for the stress stream: per case, the child must finish within this bound. The inputs are tiny (a
-/// handful of definitions): every stage takes well under a millisecond, so the bound is ~10^4 × the expected time
-/// and cannot alarm on a loaded machine, while a non-terminating loop is caught.
+/// watchdog for the stress and project streams. The inputs are tiny (a handful of definitions): every stage takes well
+/// under a millisecond of CPU. A hang is declared when the CHILD'S OWN CPU TIME on one case exceeds `HANG_CPU_MS`
+/// (read from /proc/<pid>/stat; ~10^3–10^4 × the expected time, and independent of the load of the machine because time
+/// spent waiting for a CPU does not count), or — backstop for a child that sleeps forever, and the only criterion when
+/// /proc cannot be read — when the wall clock exceeds `HANG_BOUND_MS`.
 const HANG_BOUND_MS: u64 = 20000;
-/// after this many hangs the rest of the stress stream is skipped (every hang costs the full bound)
+const HANG_CPU_MS: u64 = 4000;
+/// after this many hangs the rest of the stream is skipped (every hang costs the bound)
 const MAX_HANGS: usize = 3;
 
 struct StressWorker {
@@ -507,8 +549,20 @@ struct StressWorker {
 
 enum StressRes {
     Done(Value),
-    Hang(String),
-    Died(String),
+    /// (last announced stage, "cpu" | "wall", milliseconds)
+    Hang(String, &'static str, u64),
+    /// (last announced stage, the panic the child's hook announced before the process died)
+    Died(String, Option<(String, String)>),
+}
+
+/// user + system CPU time of a process (all its threads) in ms; None when /proc is not available
+fn cpu_ms_of(pid: u32) -> Option<u64> {
+    let s = std::fs::read_to_string(format!("/proc/{pid}/stat")).ok()?;
+    let rest = &s[s.rfind(')')? + 1..];
+    let f: Vec<&str> = rest.split_whitespace().collect();
+    // after "(comm)": state is field 3, utime field 14, stime field 15; USER_HZ is 100 on Linux
+    let (u, k) = (f.get(11)?.parse::<u64>().ok()?, f.get(12)?.parse::<u64>().ok()?);
+    Some((u + k) * 10)
 }
 
 impl StressWorker {
@@ -534,29 +588,50 @@ impl StressWorker {
     }
     fn call(&mut self, case: &Value) -> StressRes {
         let line = serde_json::to_string(case).unwrap();
+        let cpu0 = cpu_ms_of(self.child.id());
         if self.stdin.write_all(line.as_bytes()).is_err() || self.stdin.write_all(b"\n").is_err() || self.stdin.flush().is_err() {
-            return StressRes::Died("worker gone".into());
+            return StressRes::Died("start".into(), None);
         }
-        let deadline = std::time::Instant::now() + std::time::Duration::from_millis(HANG_BOUND_MS);
+        let t0 = std::time::Instant::now();
+        let deadline = t0 + std::time::Duration::from_millis(HANG_BOUND_MS);
         let mut last_stage = String::from("start");
+        let mut last_panic: Option<(String, String)> = None;
         loop {
             let left = deadline.saturating_duration_since(std::time::Instant::now());
-            match self.lines.recv_timeout(left) {
+            let slice = left.min(std::time::Duration::from_millis(200));
+            match self.lines.recv_timeout(slice) {
                 Ok(l) => {
                     if let Some(s) = l.strip_prefix("s ") {
                         last_stage = s.trim().to_string();
+                    } else if let Some(p) = l.strip_prefix("p ") {
+                        if let Ok(v) = serde_json::from_str::<Value>(p.trim()) {
+                            if last_panic.is_none() {
+                                // the first message is the panic; "panic in a function that cannot unwind" follows it
+                                last_panic = Some((v["at"].as_str().unwrap_or("").to_string(), v["msg"].as_str().unwrap_or("").to_string()));
+                            }
+                        }
                     } else if let Some(r) = l.strip_prefix("r ") {
                         return StressRes::Done(serde_json::from_str(r.trim()).unwrap_or(Value::Null));
                     }
                 }
                 Err(std::sync::mpsc::RecvTimeoutError::Timeout) => {
-                    let _ = self.child.kill();
-                    let _ = self.child.wait();
-                    return StressRes::Hang(last_stage);
+                    let cpu = match (cpu0, cpu_ms_of(self.child.id())) {
+                        (Some(a), Some(b)) => Some(b.saturating_sub(a)),
+                        _ => None,
+                    };
+                    let wall_over = std::time::Instant::now() >= deadline;
+                    if cpu.map_or(false, |c| c > HANG_CPU_MS) || wall_over {
+                        let _ = self.child.kill();
+                        let _ = self.child.wait();
+                        return match cpu {
+                            Some(c) if c > HANG_CPU_MS => StressRes::Hang(last_stage, "cpu", c),
+                            _ => StressRes::Hang(last_stage, "wall", t0.elapsed().as_millis() as u64),
+                        };
+                    }
                 }
                 Err(std::sync::mpsc::RecvTimeoutError::Disconnected) => {
                     let _ = self.child.wait();
-                    return StressRes::Died(format!("worker process died during stage {last_stage} (stack overflow / abort)"));
+                    return StressRes::Died(last_stage, last_panic);
                 }
             }
         }
@@ -567,22 +642,46 @@ impl StressWorker {
     }
 }
 
-/// run stress cases (`{"stream":"stress","class":…,"schema":…,"operations":[…]}`) under the watchdog
+/// run stress cases (`{"stream":"stress","class":…,"schema":…,"operations":[…]}`) and project cases
+/// (`{"stream":"project","class":…,"schema":…,"config":…,"files":[[path,text],…]}`) under the watchdog
 fn stress_stream(rep: &mut Report, cases: &[Value]) {
     let mut w = StressWorker::spawn();
     let mut hangs = 0;
     for (k, c) in cases.iter().enumerate() {
+        let is_project = c["stream"].as_str() == Some("project");
+        let tag = if is_project { "project" } else { "stress" };
         if hangs >= MAX_HANGS {
-            rep.count_n("stress:skipped-after-hangs", (cases.len() - k) as u64);
-            rep.notes.push(format!("stress stream stopped after {MAX_HANGS} hangs; {} cases not run", cases.len() - k));
+            rep.count_n(&format!("{tag}:skipped-after-hangs"), (cases.len() - k) as u64);
+            rep.notes.push(format!("{tag} stream stopped after {MAX_HANGS} hangs; {} cases not run", cases.len() - k));
             break;
         }
         rep.evaluations += 1;
         rep.o_cases += 1;
         let class = c["class"].as_str().unwrap_or("unclassified").to_string();
-        rep.nontrivial(&format!("stress|{}|{}", c["schema"], c["operations"]));
-        rep.count(&format!("stress:{}", class.split(':').next().unwrap_or("")));
+        let size = if is_project {
+            rep.nontrivial(&format!("project|{}|{}", c["config"], c["files"]));
+            rep.count(&format!("project:{class}"));
+            c["files"].as_array().map_or(0, |a| a.iter().map(|f| f[1].as_str().map_or(0, |s| s.len())).sum())
+        } else {
+            rep.nontrivial(&format!("stress|{}|{}", c["schema"], c["operations"]));
+            rep.count(&format!("stress:{}", class.split(':').next().unwrap_or("")));
+            c["schema"].as_str().map_or(0, |s| s.len())
+        };
         match w.call(c) {
+            StressRes::Done(r) if is_project => {
+                if let Some(p) = r["cli"].get("panic").and_then(|p| p.as_array()) {
+                    let (st, m, at) = (p[0].as_str().unwrap_or(""), p[1].as_str().unwrap_or(""), p[2].as_str().unwrap_or(""));
+                    rep.fail("O", &format!("panic:{st}:{}", site_class_of(at, m)), &format!("{st} panics at {at} on a project of {} files ({class}): {}", c["files"].as_array().map_or(0, |a| a.len()), m.lines().next().unwrap_or("")), c.clone());
+                    rep.count("project-outcome:panic");
+                } else {
+                    rep.count(&format!("project-outcome:{}", r["cli"]["outcome"].as_str().unwrap_or("?")));
+                }
+                if let Some(tags) = r["loader"].as_array() {
+                    for t in tags {
+                        rep.count(&format!("project-loader:{}", t.as_str().unwrap_or("?")));
+                    }
+                }
+            }
             StressRes::Done(r) => {
                 if let Some(p) = r.get("panic").and_then(|p| p.as_array()) {
                     let (st, m) = (p[0].as_str().unwrap_or(""), p[1].as_str().unwrap_or(""));
@@ -596,13 +695,18 @@ fn stress_stream(rep: &mut Report, cases: &[Value]) {
                     }
                 }
             }
-            StressRes::Hang(st) => {
+            StressRes::Hang(st, clock, ms) => {
                 hangs += 1;
-                rep.fail("O", &format!("hang:{st}:{class}"), &format!("stage {st} does not return within {HANG_BOUND_MS} ms on a {class} input of {} bytes", c["schema"].as_str().map_or(0, |s| s.len())), c.clone());
+                let (what, bound) = if clock == "cpu" { ("has used", HANG_CPU_MS) } else { ("has not returned after", HANG_BOUND_MS) };
+                rep.fail("O", &format!("hang:{st}:{class}"), &format!("stage {st} does not return: the child {what} {ms} ms of {clock} time (bound {bound} ms) on a {class} input of {size} bytes"), c.clone());
                 w = StressWorker::spawn();
             }
-            StressRes::Died(m) => {
-                rep.fail("O", &format!("abort:{class}"), &m, c.clone());
+            StressRes::Died(st, panic) => {
+                match (is_project, panic) {
+                    (true, Some((at, m))) => rep.fail("O", &format!("panic:{st}:{}", site_class_of(&at, &m)), &format!("{st} panics at {at} and the process aborts ({class}): {}", m.lines().next().unwrap_or("")), c.clone()),
+                    (true, None) => rep.fail("O", &format!("abort:{st}:{class}"), &format!("worker process died during stage {st} (stack overflow / abort)"), c.clone()),
+                    (false, _) => rep.fail("O", &format!("abort:{class}"), &format!("worker process died during stage {st} (stack overflow / abort)"), c.clone()),
+                }
                 w = StressWorker::spawn();
             }
         }
@@ -934,7 +1038,7 @@ fn replay(ctx: &mut Ctx, c: &Value) {
             ctx.render_case(c["source"].as_str().unwrap_or(""), p, extra, c);
         }
         "loader" => loader_stream(ctx.rep, &[c["case"].clone()]),
-        "stress" => stress_stream(ctx.rep, &[c.clone()]),
+        "stress" | "project" => stress_stream(ctx.rep, &[c.clone()]),
         _ => {}
     }
 }
@@ -1027,10 +1131,19 @@ fn main() {
     let slow = ctx.slowest.clone();
     let lc = loader_cases(&mut rng, args.budget(500, 5000));
     loader_stream(&mut rep, &lc);
-    // the semantic stress stream runs LAST (a hang costs the full watchdog bound)
+    let t_project = std::time::Instant::now();
+    // the project stream: several operation files connected by #import, through the CLI's and the loader's composition
+    let mut pc = project::systematic_projects(&mut rng, args.thorough() || search);
+    for _ in 0..(if search { 4000 } else { args.budget(700, 8000) }) {
+        pc.push(project::random_project(&mut rng, &mut |rng, t| mutate::mutate(rng, t).0));
+    }
+    rep.extra.insert("project_cases".into(), json!(pc.len()));
+    stress_stream(&mut rep, &pc);
+    rep.extra.insert("project_stream_ms".into(), json!(t_project.elapsed().as_millis() as u64));
+    // the semantic stress stream runs LAST (a hang costs the watchdog bound)
     let sc = stress_cases(&mut rng, args.thorough() || search);
     rep.extra.insert("stress_cases".into(), json!(sc.len()));
-    rep.extra.insert("hang_bound_ms".into(), json!(HANG_BOUND_MS));
+    rep.extra.insert("hang_bound_ms".into(), json!({"cpu": HANG_CPU_MS, "wall": HANG_BOUND_MS}));
     stress_stream(&mut rep, &sc);
     rep.extra.insert("slowest_case_ms".into(), json!({"ms": slow.0 as u64, "what": slow.1}));
     rep.extra.insert("time_bound_ms".into(), json!(TIME_BOUND_MS as u64));
